@@ -540,6 +540,36 @@ class Gen:
                 for q in sorted(rdown(r0)):
                     emit_queries(q, s1, pq1, nm0, pq1)
             emit_queries(r0, s0, pq, nm0, pq)
+        if rnd.random() < P.get("deep_rebase", 0.3):
+            # a chain leaf -> low -> mid -> top -> root_old; `top` is re-based onto root_new: EVERY registry below it, however deep,
+            # consults the new chain from then on (its own resolution order contains the re-based registry's)
+            ro_, rn_, top_, mid_, low_, leaf_ = range(nr + 20, nr + 26)
+            for rid, bs_ in ((ro_, []), (rn_, []), (top_, [ro_]), (mid_, [top_]), (low_, [mid_]), (leaf_, [low_])):
+                line = "newreg|%d|%s" % (rid, " ".join(map(str, bs_)))
+                L.append(line)
+                flat.apply(line.split("|"))
+            req0 = [rnd.choice([None] + specs_all) for _ in range(rnd.choice([0, 1, 1, 2]))]
+            p0 = rnd.choice(ifaces)
+            nm0 = rnd.choice(NAMES)
+            for rid in (ro_, rn_):
+                v = val()
+                line = "reg|%d|%s|%d|%s|%d %d" % (rid, sreq(req0), p0, nm0, v[0], v[1])
+                L.append(line)
+                flat.apply(line.split("|"))
+                v = val()
+                line = "sub|%d|%s|%d|%d %d" % (rid, sreq(req0), p0, v[0], v[1])
+                L.append(line)
+                flat.apply(line.split("|"))
+            s0, pq = affected(req0, p0)
+            for q in (leaf_, low_, mid_):
+                emit_queries(q, s0, pq, nm0, pq)
+            line = "rbases|%d|%d" % (top_, rn_)
+            L.append(line)
+            flat.apply(line.split("|"))
+            for q in (leaf_, low_, mid_, top_):
+                emit_queries(q, s0, pq, nm0, pq)
+                if "ro" in P["queries"]:
+                    L.append("ro|%d" % q)
         if rnd.random() < P.get("equal_pair", 0.3):
             # two (three) EQUAL but distinct subscribers under one key, an unequal one between them; then `unsubscribe` is given one
             # of those very objects: every entry equal to it goes, the unequal one stays
